@@ -61,6 +61,9 @@ def delivery_oracle(group, res, kind, prop):
     return fails
 
 
+LEADING_JUNK = [b"\r\n", b"\r\n\r\n", b"\r\n\r\n\r\n", b"\n", b"\n\n", b"\r", b" ", b"  ", b"\t", b"\r\n ", b" \r\n", b"\x00", b"\xef\xbb\xbf"]
+
+
 class C01:
     pid = "C01"
     profiles = ["dev"]
@@ -110,6 +113,18 @@ class C01:
                     masks = range(1, 2 ** m) if m <= max_all else [rng.getrandbits(m) | 1 for _ in range(2 ** max_all)]
                     for mask in masks:
                         g.add("cut", gen.req_op(tree, ov, cfg, gen.cut(s, [i + 1 for i in range(m) if mask >> i & 1])))
+                groups.append(g)
+        # what a lenient reader might skip in front of the start line (empty lines, a bare LF, blanks), once and several
+        # times, cut at every boundary of it: an allowance "per call" shows as a verdict that depends on the delivery
+        for j, pre in enumerate(LEADING_JUNK):
+            for s0 in (b"GET / HTTP/1.1\r\nHost: example.com\r\n\r\n", b"POST /p HTTP/1.1\r\nContent-Length: 3\r\n\r\nabc"):
+                s = pre + s0
+                cfg = (1000, 1000, 10_000_000)
+                g = Group("lj%d_%d" % (j, len(s0)), "req-delivery-leading", {"stream": s.hex(), "cfg": list(cfg)})
+                g.add("one-piece", gen.req_op(tree, ov, cfg, [s]))
+                for p in range(1, len(pre) + 2):
+                    g.add("cut", gen.req_op(tree, ov, cfg, gen.cut(s, [p])))
+                g.add("bytewise", gen.req_op(tree, ov, cfg, [s[i:i + 1] for i in range(len(s))]))
                 groups.append(g)
         # header line exactly at / around its limit, cut inside every CRLF
         for k in range(n // 10):
@@ -184,6 +199,15 @@ class C02:
                 g.add("one-piece", gen.resp_op(tree, ov, None, [s]))
                 for c in gen.crlf_cuts(s):
                     g.add("cut", gen.resp_op(tree, ov, None, gen.cut(s, [c])))
+                groups.append(g)
+        for j, pre in enumerate(LEADING_JUNK):      # as in C01: what a lenient reader might skip in front of the status line
+            for s0 in (b"HTTP/1.1 200 OK\r\nContent-Length: 5\r\n\r\nHello", b"HTTP/1.1 200 OK\r\nTransfer-Encoding: chunked\r\n\r\n2\r\nab\r\n0\r\n\r\n"):
+                s = pre + s0
+                g = Group("lj%d_%d" % (j, len(s0)), "resp-delivery-leading", {"stream": s.hex(), "hl": None, "framing": "leading"})
+                g.add("one-piece", gen.resp_op(tree, ov, None, [s]))
+                for p in range(1, len(pre) + 2):
+                    g.add("cut", gen.resp_op(tree, ov, None, gen.cut(s, [p])))
+                g.add("bytewise", gen.resp_op(tree, ov, None, [s[i:i + 1] for i in range(len(s))]))
                 groups.append(g)
         shorts = [b"HTTP/1.1 200 OK\r\n\r\n", b"HTTP/1.1 200 \r\nTransfer-Encoding:chunked\r\n\r\n1;a\r\nx\r\n0\r\nA:b\r\n c\r\n\r\nZ"]
         max_all = n_for(tier, 10, 13)
